@@ -378,12 +378,6 @@ Definition find_inst (st : state) (id : N) : option inst :=
   if i_id (st_cur st) =? id then Some (st_cur st)
   else find (fun i => i_id i =? id) (st_dead st).
 
-(** the procedure lock of instance [id] *)
-Definition set_proc (st : state) (id : N) (b : bool) : state :=
-  if i_id (st_cur st) =? id then with_cur st (with_proc (st_cur st) b)
-  else mkState (st_db st) (st_enc st) (st_auth st) (st_connected st) (st_cur st)
-               (map (fun j => if i_id j =? id then with_proc j b else j) (st_dead st)).
-
 (** [GattServer.notify] / [indicate] of instance [id] (under proclock, no txlock); proclock
     releases the procedure lock in a finally clause: the hook's exception leaves the state as it was *)
 Definition notify_via (st : state) (id : N) (o : hook_outcome) (mk : N -> bytes -> att_pdu)
